@@ -16,6 +16,7 @@ import (
 	"sort"
 	"strconv"
 	"strings"
+	"syscall"
 
 	fsv1 "github.com/cossacklabs/acra/keystore/filesystem"
 	backendapi "github.com/cossacklabs/acra/keystore/v2/keystore/filesystem/backend/api"
@@ -33,6 +34,17 @@ const (
 	ModeTorn        Mode = "torn"
 )
 
+// Mode "sys<n>" (v2, directory back end): the faulted call is a Put and the REAL DirectoryBackend.Put runs
+// under a file size limit of n bytes (RLIMIT_FSIZE, SIGXFSZ ignored), so write(2) stores n bytes and then
+// fails with EFBIG INSIDE Put, after the exclusive create. The process survives; Put returns an error.
+func (m Mode) sysLimit() (uint64, bool) {
+	if !strings.HasPrefix(string(m), "sys") {
+		return 0, false
+	}
+	n, err := strconv.ParseUint(string(m)[3:], 10, 32)
+	return n, err == nil
+}
+
 type crashSignal struct{}
 
 var errInjected = errors.New("injected I/O failure")
@@ -49,10 +61,17 @@ type Injector struct {
 	FiredCall string
 	Dead      bool // the process has "crashed": calls made while the panic unwinds (deferred unlocks) never happened
 	root  string
+	// NoLink: the storage has no hard links – every Link fails with EPERM (v1). CopyLimited: while armed, the
+	// real FileStorage.Copy runs under this file size limit (the history copy hits a full disk / quota).
+	NoLink    bool
+	CopyLimited bool
+	CopyLimit   uint64
+	// SysFailed: the call that ran under a file size limit did return an error
+	SysFailed bool
 }
 
 func (in *Injector) Arm(mode Mode, k int) {
-	in.Armed, in.Mode, in.K, in.n, in.Calls, in.Fired, in.Dead, in.FiredCall = true, mode, k, 0, nil, false, false, ""
+	in.Armed, in.Mode, in.K, in.n, in.Calls, in.Fired, in.Dead, in.FiredCall, in.SysFailed = true, mode, k, 0, nil, false, false, "", false
 }
 func (in *Injector) Disarm() { in.Armed = false }
 
@@ -70,7 +89,7 @@ func (in *Injector) enter(call string) Mode {
 	if in.Mode != ModeNone && i == in.K && !in.Fired {
 		in.Fired = true
 		in.FiredCall = call
-		if in.Mode != ModeErr {
+		if _, isSys := in.Mode.sysLimit(); in.Mode != ModeErr && !isSys {
 			in.Dead = true
 		}
 		return in.Mode
@@ -194,10 +213,23 @@ func (f *faultStorage) TempFile(pattern string, perm os.FileMode) (name string, 
 	return name, err
 }
 func (f *faultStorage) Link(a, b string) error {
-	return f.act("Link:"+f.canon(a), func() error { return f.Storage.Link(a, b) })
+	return f.act("Link:"+f.canon(a), func() error {
+		if f.in.NoLink {
+			return &os.LinkError{Op: "link", Old: a, New: b, Err: syscall.EPERM}
+		}
+		return f.Storage.Link(a, b)
+	})
 }
 func (f *faultStorage) Copy(a, b string) error {
-	return f.act("Copy:"+f.canon(a), func() error { return f.Storage.Copy(a, b) })
+	return f.act("Copy:"+f.canon(a), func() error {
+		if f.in.Armed && f.in.CopyLimited {
+			var err error
+			withFileSizeLimit(f.in.CopyLimit, func() { err = f.Storage.Copy(a, b) })
+			f.in.Fired, f.in.FiredCall, f.in.SysFailed = true, "Copy:"+f.canon(a), err != nil
+			return err
+		}
+		return f.Storage.Copy(a, b)
+	})
 }
 func (f *faultStorage) ReadFile(p string) (b []byte, err error) {
 	err = f.act("ReadFile:"+f.canon(p), func() error { b, err = f.Storage.ReadFile(p); return err })
@@ -244,7 +276,11 @@ func ringTok(p string) string {
 }
 
 func (b *faultBackend) act(call string, do func() error) error {
-	switch b.in.enter(call) {
+	m := b.in.enter(call)
+	if _, isSys := m.sysLimit(); isSys {
+		panic("harness: a file size limit fault (" + string(m) + ") at a back-end call that is not Put: " + call)
+	}
+	switch m {
 	case "dead", ModeErr:
 		return errInjected
 	case ModeCrashBefore, ModeTorn:
@@ -262,7 +298,14 @@ func (b *faultBackend) Get(p string) (d []byte, err error) {
 }
 func (b *faultBackend) Put(p string, data []byte) error {
 	call := "Put:" + ringTok(p)
-	switch b.in.enter(call) {
+	m := b.in.enter(call)
+	if limit, isSys := m.sysLimit(); isSys {
+		var err error
+		withFileSizeLimit(limit, func() { err = b.Backend.Put(p, data) })
+		b.in.SysFailed = err != nil
+		return err
+	}
+	switch m {
 	case "dead", ModeErr:
 		return errInjected
 	case ModeCrashBefore:
